@@ -243,10 +243,15 @@ def enforceBudgets (cfg : Cfg) (wire ext : Nat) : Option Err :=
   else if cfg.maxExt > 0 ∧ ext > cfg.maxExt then some .capExt
   else none
 
-/-- The token merge of `handleExchangeCall`: the per-emit entries except a colliding
-`MetaStreamState` key, then the cursor (so the cursor is the only entry with that key). -/
+/-- `stripTokenKeysFromEmitMetadata`: a data batch's per-emit metadata without the transport's two
+token keys (order kept). -/
+def emitUserMeta (md : List (Bytes × Bytes)) : List (Bytes × Bytes) :=
+  md.filter fun kv => kv.1 != keyState && kv.1 != keyCall
+
+/-- The token merge of `handleExchangeCall`: the per-emit entries except the token keys, then the
+cursor (so the cursor is the only entry with that key). -/
 def mergeToken (tok : Val) (md : List (Bytes × Bytes)) : Meta :=
-  litMeta (md.filter fun kv => kv.1 != keyState) ++ [(keyState, tok)]
+  litMeta (emitUserMeta md) ++ [(keyState, tok)]
 
 /-- The flush loop of `handleExchangeCall`: the batch at `dataIdx` gets the cursor merged on top of
 its own metadata; everything else is written as it is. -/
@@ -320,7 +325,7 @@ structure LoopOut where
 def flushProducer : List OBatch → List RBatch
   | [] => []
   | .log m :: r => .log m :: flushProducer r
-  | .data vs md :: r => .data vs (litMeta md) :: flushProducer r
+  | .data vs md :: r => .data vs (litMeta (emitUserMeta md)) :: flushProducer r
 
 def sumList : List Nat → Nat
   | [] => 0
